@@ -246,6 +246,25 @@ def guarded_by_presence_test(site, parents):
             for cj in _conjuncts(p["c"]):
                 if cj.get("k") == "letx" and any(v.endswith(("::Some", "::Ok")) for v in fb.pat_variants(cj["pat"]) if v) and _same_place(_strip_clone(cj["init"]), _strip_clone(recv)):
                     return "inside `if/while let Some(_) = %s`" % fb.show(cj["init"])
+        # (h) X.first()/last()/last_mut()/pop().unwrap() in the else-branch of `if X.is_empty()` / then-branch of `if !X.is_empty()`
+        if k == "if" and getter is not None and getter["name"] in ("first", "last", "last_mut", "first_mut", "pop") and not getter["args"] and p["c"].get("k") != "letx":
+            def _empty_of(cj):
+                if cj.get("k") == "mcall" and cj["name"] == "is_empty" and not cj["args"]:
+                    return cj["recv"]
+                if cj.get("k") == "binary" and cj["op"] == "==" and cj["l"].get("k") == "mcall" and cj["l"]["name"] == "len" and cj["r"].get("k") == "lit" and cj["r"].get("v") == "i:0":
+                    return cj["l"]["recv"]
+                return None
+            if child is p.get("e"):
+                for cj in _disjuncts(p["c"]):
+                    emp = _empty_of(cj)
+                    if emp is not None and _same_place(emp, getter["recv"]):
+                        return "else-branch of `if %s`" % fb.show(cj)
+            if child is p.get("t"):
+                for cj in _conjuncts(p["c"]):
+                    n_ = _neg(cj)
+                    emp = _empty_of(n_) if n_ is not None else None
+                    if emp is not None and _same_place(emp, getter["recv"]):
+                        return "then-branch of `if %s`" % fb.show(cj)
         if k == "block" and getter is not None and getter["name"] in ("first", "last", "last_mut", "first_mut", "pop") and not getter["args"]:
             seq = list(p.get("stmts", []))
             if p.get("e") is not None:
